@@ -195,7 +195,7 @@ def run(ctx):
             dst = os.path.join(ctx.work, "ctl_" + name)
             open(dst, "w").write(txt)
             ov["internal/k8s/controllers/" + name] = dst
-        recs, okrun, log = ctx.go_harness("internal/k8s/controllers", ["zz_verif_k8srec_test.go"], "TestVerifK8sRec$",
+        recs, okrun, log = ctx.go_harness("internal/k8s/controllers", ["zz_verif_k8srec_test.go"], "TestVerifK8sRec(Deliver)?$",
                                           n=max(20, n // 4), seed=seed, tag=tag + "rec", extra_overlay=ov)
         cases += records(recs, okrun, log, "TestVerifK8sRec")
         terms = []
@@ -224,8 +224,9 @@ def run(ctx):
                                                             fp.clist([fp.cpfx(r) for r in routes])))
         pwcases = []
         if check_coq:
-            recs, okrun, log = ctx.go_harness("speaker", ["zz_verif_pw_test.go"], "TestVerifPw$", seed=seed, tag=tag + "pw")
-            pwcases = records(recs, okrun, log, "TestVerifPw")
+            recs, okrun, log = ctx.go_harness("speaker", ["zz_verif_pw_test.go", "zz_verif_k8sflap_test.go"], "TestVerif(Pw|K8sFlap)$",
+                                              n=40 if ctx.tier == "quick" else 400, seed=seed, tag=tag + "pw")
+            pwcases = records(recs, okrun, log, "TestVerifPw / TestVerifK8sFlap")
             terms += [c["coq"] for c in pwcases]
         mism = []
         if check_coq and terms and ok:
@@ -266,9 +267,11 @@ def run(ctx):
     st = state["stats"]
     if cases and not ctx.corr_broken and not ctx.violations:
         for k in ("input_with_password_and_secret", "secret_ref", "password", "unnumbered", "repeated_prefix", "repeated_prefix_other_localpref",
-                  "adv_with_localpref", "communities", "neighbor_without_advertisement", "multi_neighbor", "pw_cases",
-                  "reconciled_single_field_changes", "reconciled_shrink_to_empty", "reconciled_cases", "reconciled_at_debug", "reconciled_with_password", "reconciled_with_secret_ref",
+                  "adv_with_localpref", "communities", "neighbor_without_advertisement", "multi_neighbor", "pw_cases", "flap_histories", "flap_node_label_changes",
+                  "deliver_runs", "deliver_consumer_started_late", "reconciled_single_field_changes", "reconciled_shrink_to_empty", "reconciled_cases", "reconciled_at_debug", "reconciled_with_password", "reconciled_with_secret_ref",
                   "k8s_histories", "k8s_hist_rejected_set", "k8s_hist_resync", "k8s_hist_close", "k8s_hist_set"):
+            if k.startswith("flap_") and st.get("whitebox_skipped:speaker-bgp-handler", 0):
+                continue    # the speaker's protocol-handler map was not found by type: that harness skipped itself
             if st.get(k, 0) == 0:
                 raise Exception("generator degenerate: counter %s is zero: %r" % (k, st))
 
